@@ -1,23 +1,20 @@
 //! ad-hoc probes (not part of any check)
-use crate::gen;
-use engeom::geom3::{Plane3, UnitVec3};
+use engeom::geom3::{Iso3, IsoExtensions3, Point3, Vector3};
+use engeom::common::svd_basis::{iso3_from_basis, iso3_from_xyo};
 pub fn run() {
-    let m = gen::torus(3.0, 0.8, 7, 4);
-    let v = m.vertices();
-    println!("verts {} faces {}", v.len(), m.faces().len());
-    // plane through vertices 0,1,2 ... try the first ring: find 3 vertices of one meridian ring
-    for (a, b, c) in [(0usize, 1usize, 2usize), (0, 7, 14), (0, 4, 8)] {
-        let n = (v[b] - v[a]).cross(&(v[c] - v[a]));
-        if n.norm() < 1e-9 { continue; }
-        let n = UnitVec3::new_normalize(n);
-        let plane = Plane3::new(n, n.dot(&v[a].coords));
-        let on: Vec<usize> = (0..v.len()).filter(|k| plane.signed_distance_to_point(&v[*k]).abs() < 1e-9).collect();
-        println!("plane through {a},{b},{c}: on-plane vertices {on:?}");
-        let cs = m.section(&plane, Some(1e-10)).unwrap();
-        for cv in &cs {
-            let ids: Vec<String> = cv.points().iter().map(|p| match v.iter().position(|q| (q - p).norm() < 1e-9) { Some(k) => format!("v{k}"), None => format!("({:.2},{:.2},{:.2})", p.x, p.y, p.z) }).collect();
-            println!("   curve: {}", ids.join(" "));
-        }
-    }
-    for f in m.faces().iter().take(16) { println!("face {:?}", f); }
+    let o = Point3::new(0.0, 0.0, 0.0);
+    let (x, y, z) = (Vector3::x(), Vector3::y(), Vector3::z());
+    let t = Iso3::try_from_basis_xy(&(-x), &(-y), None).unwrap();
+    println!("try_from_basis_xy(-x,-y): rot {:?}", t.rotation.to_rotation_matrix());
+    let t = Iso3::try_from_basis_xy(&(-x), &(y), None).unwrap();
+    println!("try_from_basis_xy(-x,y): rot {:?}", t.rotation.to_rotation_matrix());
+    let t = Iso3::try_from_basis_yz(&(-y), &(z), None).unwrap();
+    println!("try_from_basis_yz(-y,z): rot {:?}", t.rotation.to_rotation_matrix());
+    let t = iso3_from_basis(&[-x, -y, z], &o);
+    println!("iso3_from_basis(-x,-y,z): rot {:?}  maps -x to {:?}", t.rotation.to_rotation_matrix(), t * (-x));
+    let t = iso3_from_xyo(&engeom::geom3::UnitVec3::new_normalize(-x), &engeom::geom3::UnitVec3::new_normalize(-y), &o);
+    println!("iso3_from_xyo(-x,-y): rot {:?} maps -x to {:?}", t.rotation.to_rotation_matrix(), t * (-x));
+    let h = (0.5f64).sqrt();
+    let t = Iso3::try_from_basis_xy(&Vector3::new(0.0, 1.0, 0.0), &Vector3::new(1.0, 0.0, 0.0), None).unwrap();
+    println!("try_from_basis_xy(y,x) (half turn about (1,1,0)): rot {:?} {}", t.rotation.to_rotation_matrix(), h);
 }
